@@ -8,6 +8,10 @@ from ..scen_limiter import limiter
 def run(ctx):
     n = 2 if ctx.quick else 3
     tokenizer(ctx, n, ['tok.no_io_error'], f'full alphabet n={n}, read failure injected at every position 0..{n - 1}', partition=1, fail_positions=list(range(n)))
+    # a failure inside a string escape: the bytes `"\\u` / `"\\uH` / ... have been read, the next read fails
+    Q, BS, U, HEX = [0x22], [0x5c], [ord('u')], [ord(c) for c in '0123456789abcdefABCDEF']
+    for k in range(0, 4):
+        tokenizer(ctx, None, ['tok.no_io_error'], f'read failure after `"\\u` and {k} hex digits', variants=('nocb',), partition=0, multi=[(3 + k, [Q, BS, U] + [HEX] * k)], fail_positions=[3 + k])
     read_input(ctx, ['read.io_error_fatal', 'read.process_err_propagates', 'read.write_err_propagates', 'read.nopanic'])
     stage_steps(ctx, want=('err',))
     limiter(ctx, {'err', 'nopanic'})
